@@ -21,6 +21,7 @@ import (
 	"sort"
 	"strconv"
 	"strings"
+	"sync"
 	"time"
 
 	"github.com/chrislusf/seaweedfs/weed/filer"
@@ -257,6 +258,76 @@ func doLs(via, path string) {
 	}))
 }
 
+// doConcRound inserts the entries of every writer concurrently (barrier start), then writes the round to the trace.
+func doConcRound(writers [][]*filer.Entry) {
+	type res struct{ outs []string }
+	args := make([][][]string, len(writers))
+	results := make([][]res, len(writers))
+	pre := make([][][2]string, len(writers))
+	for w, es := range writers {
+		args[w] = make([][]string, len(es))
+		results[w] = make([]res, len(es))
+		pre[w] = make([][2]string, len(es))
+		for i, e := range es {
+			args[w][i] = append([]string{hx.I(int64(w)), "ins", hx.HexS(string(e.FullPath))}, dump(e)...)
+			blob, encErr := e.EncodeAttributesAndChunks()
+			first := "-"
+			if encErr == nil && len(blob) > 0 {
+				first = hx.I(int64(blob[0]))
+			}
+			pre[w][i] = [2]string{first, hx.B(encErr == nil && util.IsGzippedContent(blob))}
+		}
+	}
+	var ready, done sync.WaitGroup
+	start := make(chan struct{})
+	for w := range writers {
+		ready.Add(1)
+		done.Add(1)
+		go func(w int) {
+			defer done.Done()
+			ready.Done()
+			<-start
+			for i, e := range writers[w] {
+				e := e
+				o := hx.Guard(func() []string { return []string{hx.Err(cur.Store.InsertEntry(ctx, e))} })
+				results[w][i] = res{append(o, pre[w][i][0], pre[w][i][1])}
+			}
+		}(w)
+	}
+	ready.Wait()
+	close(start)
+	done.Wait()
+	tr.Op("concbegin", []string{hx.I(int64(len(writers)))}, nil)
+	for w := range writers {
+		for i := range writers[w] {
+			tr.Op("cput", args[w][i], results[w][i].outs)
+		}
+	}
+	tr.Op("concend", nil, nil)
+}
+
+// genConcRound: k writers x m entries, each writer in its own directory; big = more than 50 chunks (gzip path)
+func genConcRound(r *hx.Rng, round, k, m int, big bool) {
+	writers := make([][]*filer.Entry, k)
+	var paths []string
+	for w := 0; w < k; w++ {
+		for i := 0; i < m; i++ {
+			path := fmt.Sprintf("/conc%d/w%d/e%d", round, w, i)
+			nc := 51 + r.Intn(40)
+			if !big {
+				nc = r.Intn(51)
+			}
+			writers[w] = append(writers[w], genEntry(r, path, nc))
+			paths = append(paths, path)
+		}
+	}
+	doConcRound(writers)
+	for _, p := range paths {
+		doFind(p)
+		doLs("f", p)
+	}
+}
+
 // ---------------------------------------------------------------- generation
 func rstr(r *hx.Rng, pool []string) string {
 	if r.Chance(1, 3) {
@@ -428,8 +499,18 @@ func main() {
 	}
 	r := hx.NewRng(a.Seed)
 	chunkCounts := []int{0, 0, 1, 2, 3, 5, 10, 49, 50, 51, 52, 60, 80, 120}
-	for _, kind := range []string{"leveldb", "leveldb2", "leveldb3"} {
+	for ki, kind := range []string{"leveldb", "leveldb2", "leveldb3"} {
 		doReset(kind)
+		// concurrent writers: entries above the gzip threshold, and a control round below it
+		concK, concM, rounds := 32, 4, 1
+		if a.Thorough() {
+			concM, rounds = 10, 3
+		}
+		for rd := 0; rd < rounds*a.Budget; rd++ {
+			genConcRound(r, ki*1000+rd, concK, concM, true)
+		}
+		genConcRound(r, ki*1000+999, 8, 3, false)
+		doReset(kind) // a failing read of a concurrent round replays from the reset above, the rest from here
 		ds := dirsByKind[kind]
 		for i := 0; i < a.N(100); i++ {
 			path := string(util.NewFullPath(r.Pick(ds), fmt.Sprintf("f%d-%s", i, r.Pick([]string{"x", "y.txt", "ü"}))))
@@ -472,8 +553,26 @@ func main() {
 }
 
 func replay(ops [][]string) {
+	var conc [][]*filer.Entry
+	inConc := false
 	for _, o := range ops {
 		switch o[0] {
+		case "concbegin":
+			if cur == nil {
+				doReset("leveldb")
+			}
+			n, _ := strconv.Atoi(o[1])
+			conc, inConc = make([][]*filer.Entry, n), true
+		case "cput":
+			w, _ := strconv.Atoi(o[1])
+			if inConc && w < len(conc) {
+				conc[w] = append(conc[w], undump(hx.UnHexS(o[3]), o[4:]))
+			}
+		case "concend":
+			if inConc {
+				doConcRound(conc)
+			}
+			inConc = false
 		case "reset":
 			doReset(o[1])
 		case "put":
